@@ -81,6 +81,7 @@ func c17WfStyleOK(p string, style, form int) bool {
 func c17WfGen(r *Rand) []*c17WfEvent {
 	n := r.Range(1, 5)
 	used := map[string]bool{}
+	var placed []string
 	var evs []*c17WfEvent
 	for len(evs) < n {
 		var name string
@@ -125,6 +126,11 @@ func c17WfGen(r *Rand) []*c17WfEvent {
 				}
 				for len(f.pats) < nv {
 					pat := c17LintPattern(r)
+					// the same string under several filter keys / events of one workflow (a pattern that is
+					// fine as a path filter may be invalid as a ref filter): verdicts must not be shared
+					if len(placed) > 0 && r.Chance(1, 3) {
+						pat = placed[r.Intn(len(placed))]
+					}
 					style := r.Intn(3)
 					if !c17WfStyleOK(pat, style, f.form) {
 						style = 1
@@ -132,6 +138,7 @@ func c17WfGen(r *Rand) []*c17WfEvent {
 							continue
 						}
 					}
+					placed = append(placed, pat)
 					f.pats = append(f.pats, &c17WfPat{c17Scalar: c17Scalar{key: f.key, pat: pat, style: style}, event: name, form: f.form})
 				}
 				ev.filters = append(ev.filters, f)
